@@ -10,6 +10,7 @@ import copy
 import os
 
 import common
+import dbside
 import gen_spec
 import parser_common as pc
 import pyside
@@ -235,16 +236,27 @@ def run(ctx):
                                                 "reopen)", {"lines": lines, "db": d1, "reopened": d2,
                                                             "iterator": it.dialect}))
                 derived = [f for f in db.all_features() if f.source == "gffutils_derived"]
-                nrel = db.execute("select count(*) from relations").fetchone()[0]
+                rels = set(dbside.rels_of(db))
                 if fmt == "gtf":
-                    # GTF semantics: genes/transcripts inferred from gene_id / transcript_id
-                    if not derived:
-                        res.oracle_failures.append(("GTF-format input was not imported with GTF semantics (no derived "
-                                                    "gene/transcript)", {"lines": lines}))
+                    # GTF semantics: every line is a level-1 child of its transcript_id and a level-2 child of its
+                    # gene_id (derived genes/transcripts additionally exist only when the file has exon lines)
+                    ok = True
+                    for s_, f in zip(specs, [x for x in db.all_features() if x.source != "gffutils_derived"]):
+                        a = dict(s_.attrs)
+                        t, g = a["transcript_id"][0], a["gene_id"][0]
+                        if (t, str(f.id), 1) not in rels or (g, str(f.id), 2) not in rels:
+                            ok = False
+                    if not ok:
+                        res.oracle_failures.append(("GTF-format input was not imported with GTF semantics (transcript_id / "
+                                                    "gene_id relations missing)", {"lines": lines}))
                 else:
-                    if derived:
-                        res.oracle_failures.append(("GFF3-format input was imported with GTF semantics",
-                                                    {"lines": lines}))
+                    parent_links = set()
+                    for s_, f in zip(specs, list(db.all_features())):
+                        for p_ in dict(s_.attrs).get("Parent", []):
+                            parent_links.add((p_, str(f.id), 1))
+                    if derived or {x for x in rels if x[2] == 1} != parent_links:
+                        res.oracle_failures.append(("GFF3-format input was imported with GTF semantics (derived features, "
+                                                    "or relations not from Parent)", {"lines": lines}))
                 res.count("db_fmt_" + fmt)
             except Exception as ex:
                 res.oracle_failures.append(("create_db raised %r on a consistent file" % ex, {"lines": lines}))
